@@ -1096,4 +1096,257 @@ theorem inv_new (now a b : Nat) : Inv (Writer.new now a b) (Writer.new now a b).
   refine ⟨ordered_new now a b, new_filesOK now a b, ?_, ?_, ?_⟩ <;>
     simp [Writer.new, Writer.roll, EntsOK, allEnts]
 
+/-! ### from the writer invariants to the correctness of the index for a given `begin` -/
+
+/-- the position the index delivers for `begin` (`firstHit`) splits the retained items into those
+    before `begin` and those not before it -/
+def IndexCorrect (bs : Nat) (fs : Dir) : Prop :=
+  match firstHit bs fs with
+  | none => ∀ it ∈ retained fs, it.ts / 1000 < bs
+  | some (d, off) => ∀ pre f rest, fs = pre ++ f :: rest → d = f :: rest →
+      (∀ it ∈ retained pre, it.ts / 1000 < bs) ∧
+      ∃ j, off = (serialise (f.lines.take j)).length ∧ (∀ it ∈ f.lines.take j, it.ts / 1000 < bs) ∧
+        ∀ it ∈ f.lines.drop j ++ retained rest, bs ≤ it.ts / 1000
+
+theorem firstHit_none (bs : Nat) (fs : Dir) (h : firstHit bs fs = none) : ∀ e ∈ allEnts fs, e.1 < bs := by
+  induction fs with
+  | nil => simp [allEnts]
+  | cons f r ih =>
+    unfold firstHit at h
+    cases hfind : f.ents.find? (fun e => decide (e.1 ≥ bs)) with
+    | some e => rw [hfind] at h; simp at h
+    | none =>
+      rw [hfind] at h
+      intro e he
+      rw [allEnts_cons] at he
+      rcases List.mem_append.1 he with he | he
+      · have := List.find?_eq_none.1 hfind e he
+        simpa using this
+      · exact ih h e he
+
+theorem firstHit_some (bs : Nat) (fs d : Dir) (off : Nat) (h : firstHit bs fs = some (d, off)) :
+    ∃ pre f rest l1 e l2, fs = pre ++ f :: rest ∧ d = f :: rest ∧ f.ents = l1 ++ e :: l2 ∧ off = e.2 ∧ bs ≤ e.1 ∧
+      ∀ x ∈ allEnts pre ++ l1, x.1 < bs := by
+  induction fs with
+  | nil => simp [firstHit] at h
+  | cons f r ih =>
+    unfold firstHit at h
+    cases hfind : f.ents.find? (fun e => decide (e.1 ≥ bs)) with
+    | some e =>
+      rw [hfind] at h
+      simp only [Option.some.injEq, Prod.mk.injEq] at h
+      obtain ⟨hp, l1, l2, hl, hall⟩ := List.find?_eq_some_iff_append.1 hfind
+      refine ⟨[], f, r, l1, e, l2, rfl, h.1.symm, hl, h.2.symm, by simpa using hp, ?_⟩
+      intro x hx
+      simp only [allEnts, List.flatMap_nil, List.nil_append] at hx
+      have := hall x hx
+      simpa using this
+    | none =>
+      rw [hfind] at h
+      obtain ⟨pre, g, rest, l1, e, l2, h1, h2, h3, h4, h5, h6⟩ := ih h
+      refine ⟨f :: pre, g, rest, l1, e, l2, by simp [h1], h2, h3, h4, h5, ?_⟩
+      intro x hx
+      rw [allEnts_cons, List.append_assoc] at hx
+      rcases List.mem_append.1 hx with hx | hx
+      · have := List.find?_eq_none.1 hfind x hx
+        simpa using this
+      · exact h6 x hx
+
+/-- **the index is correct for `begin`** whenever the entries are as the writer leaves them and every
+    retained item not before `begin` belongs to a second that has an index entry in a retained file -/
+theorem indexCorrect_of_inv (fs : Dir) (hents : EntsOK [] fs) (hsorted : (allEnts fs).Pairwise entLe) (bs : Nat)
+    (hcov : ∀ x ∈ retained fs, bs ≤ x.ts / 1000 → ∃ e ∈ allEnts fs, e.1 = x.ts / 1000) : IndexCorrect bs fs := by
+  unfold IndexCorrect
+  cases hh : firstHit bs fs with
+  | none =>
+    simp only
+    intro it hit
+    by_contra hge
+    obtain ⟨e, he, hes⟩ := hcov it hit (by omega)
+    have := firstHit_none bs fs hh e he
+    omega
+  | some p =>
+    obtain ⟨d, off⟩ := p
+    simp only
+    intro pre' f' rest' e1' e2'
+    obtain ⟨pre, f, rest, l1, e, l2, e1, e2, hl, hoff, hbs, hlt⟩ := firstHit_some bs fs d off hh
+    -- the decomposition is unique
+    have hd : f' :: rest' = f :: rest := e2'.symm.trans e2
+    have hpre : pre' = pre := by
+      have : pre' ++ f :: rest = pre ++ f :: rest := by rw [← e1, ← hd, ← e1']
+      exact List.append_cancel_right this
+    obtain ⟨hf, hr⟩ := List.cons.inj hd
+    subst hpre hf hr
+    -- every entry not before `begin` is not before `e`
+    have hge : ∀ x ∈ allEnts fs, bs ≤ x.1 → e.1 ≤ x.1 := by
+      intro x hx hxb
+      rw [e1, allEnts_append, allEnts_cons, hl] at hx hsorted
+      have hx' : x ∈ (allEnts pre' ++ l1) ++ (e :: (l2 ++ allEnts rest')) := by
+        simpa [List.append_assoc] using hx
+      rcases List.mem_append.1 hx' with hx' | hx'
+      · have := hlt x hx'; omega
+      · rcases List.mem_cons.1 hx' with rfl | hx'
+        · exact le_refl _
+        · have hs2 : (e :: (l2 ++ allEnts rest')).Pairwise entLe := by
+            have : ((allEnts pre' ++ l1) ++ (e :: (l2 ++ allEnts rest'))).Pairwise entLe := by
+              simpa [List.append_assoc] using hsorted
+            exact (List.pairwise_append.1 this).2.1
+          exact List.rel_of_pairwise_cons hs2 hx'
+    obtain ⟨j, hj, hoffj, hbefore, hafter⟩ := EntsOK_split [] pre' f' rest' (e1 ▸ hents) e (by rw [hl]; simp)
+    have hold : ∀ it ∈ retained pre' ++ f'.lines.take j, it.ts / 1000 < bs := by
+      intro it hit
+      by_contra hnot
+      have hmem : it ∈ retained fs := by
+        rw [e1, retained_append, retained_cons]
+        rcases List.mem_append.1 hit with h | h
+        · exact List.mem_append_left _ h
+        · exact List.mem_append_right _ (List.mem_append_left _ (List.mem_of_mem_take h))
+      obtain ⟨x, hx, hxs⟩ := hcov it hmem (by omega)
+      have h1 := hge x hx (by omega)
+      have h2 := hbefore it (by simpa using hit)
+      omega
+    refine ⟨fun it hit => hold it (List.mem_append_left _ hit), j, hoff.trans hoffj,
+      fun it hit => hold it (List.mem_append_right _ hit), ?_⟩
+    intro it hit
+    have := hafter it hit
+    omega
+
+/-! ### the remaining side conditions of `find_fresh_partial` for write histories -/
+
+def normItems (ts : Nat) (items : List Item) : List Item :=
+  items.map fun i => { i with ts := ts, res := sanitize i.res }
+
+theorem rollIf_latest (w : Writer) (c : Bool) (ts : Nat) : (w.rollIf c ts).latestOpSec = w.latestOpSec := by
+  unfold Writer.rollIf; split_ifs <;> rfl
+
+theorem write_latest_lt (w : Writer) (ts : Nat) (items : List Item) (B : Nat) (hw : w.latestOpSec < B)
+    (ht : ts / 1000 < B) : (w.write ts items).latestOpSec < B := by
+  unfold Writer.write
+  dsimp only
+  split_ifs
+  · exact hw
+  · simp only [rollIf_latest, Writer.append, Writer.addIndex]; exact max_lt hw ht
+  · simp only [rollIf_latest, Writer.append]; exact max_lt hw ht
+
+theorem valid_norm (ts : Nat) (hts : ts < 2 ^ 64) (i : Item) (h : Valid i) :
+    Valid { i with ts := ts, res := sanitize i.res } := by
+  have hsan : sanitize i.res = i.res := sanitize_id _ (fun hx => (h.res _ hx).1 rfl)
+  exact ⟨hts, h.pass, h.block, h.complete, h.error, h.rt, h.occ, h.conc, h.cls_lo, h.cls_hi, by simpa [hsan] using h.res⟩
+
+def LinesValid (w : Writer) : Prop := ∀ f ∈ w.files, ∀ it ∈ f.lines, Valid it
+
+theorem linesValid_roll (w : Writer) (ts : Nat) (h : LinesValid w) : LinesValid (w.roll ts) := by
+  intro f hf
+  simp only [Writer.roll, List.mem_append, List.mem_singleton] at hf
+  rcases hf with hf | rfl
+  · exact h f (List.mem_of_mem_drop hf)
+  · simp
+
+theorem linesValid_rollIf (w : Writer) (c : Bool) (ts : Nat) (h : LinesValid w) : LinesValid (w.rollIf c ts) := by
+  unfold Writer.rollIf; split_ifs; exact linesValid_roll w ts h; exact h
+
+theorem linesValid_addIndex (w : Writer) (s : Nat) (h : LinesValid w) : LinesValid (w.addIndex s) :=
+  modLast_forall (fun f => ∀ it ∈ f.lines, Valid it) _ _ h (fun _ hx => hx)
+
+theorem linesValid_append (w : Writer) (items : List Item) (hi : ∀ it ∈ items, Valid it) (h : LinesValid w) :
+    LinesValid (w.append items) :=
+  modLast_forall (fun f => ∀ it ∈ f.lines, Valid it) _ _ h (fun _ hx it hit => by
+    rcases List.mem_append.1 hit with hit | hit
+    · exact hx it hit
+    · exact hi it hit)
+
+theorem linesValid_write (w : Writer) (ts : Nat) (items : List Item) (hts : ts < 2 ^ 64)
+    (hi : ∀ it ∈ items, Valid it) (h : LinesValid w) : LinesValid (w.write ts items) := by
+  have hn : ∀ it ∈ items.map (fun i => ({ i with ts := ts, res := sanitize i.res } : Item)), Valid it := by
+    intro it hit
+    rcases List.mem_map.1 hit with ⟨i, hi', rfl⟩
+    exact valid_norm ts hts i (hi i hi')
+  unfold Writer.write
+  dsimp only
+  split_ifs
+  · exact h
+  · exact linesValid_rollIf _ _ _ (linesValid_append _ _ hn (linesValid_rollIf _ _ _ (linesValid_addIndex _ _ h)))
+  · exact linesValid_rollIf _ _ _ (linesValid_append _ _ hn h)
+
+/-- a history the writer accepts: timestamps and counters in the range of their Go types, resource
+    names without field separator and line breaks -/
+def HistValid (hist : List (Nat × List Item)) : Prop := ∀ p ∈ hist, p.1 < 2 ^ 64 ∧ ∀ it ∈ p.2, Valid it
+
+theorem runWrites_side (w : Writer) (hist : List (Nat × List Item)) (hv : HistValid hist) (hl : LinesValid w)
+    (hw : w.latestOpSec < 2 ^ 64) :
+    LinesValid (runWrites w hist) ∧ (runWrites w hist).latestOpSec < 2 ^ 64 := by
+  induction hist generalizing w with
+  | nil => exact ⟨hl, hw⟩
+  | cons p r ih =>
+    have hp := hv p (by simp)
+    refine ih _ (fun q hq => hv q (List.mem_cons_of_mem _ hq)) (linesValid_write w p.1 p.2 hp.1 hp.2 hl)
+      (write_latest_lt w p.1 p.2 _ hw ?_)
+    have := hp.1
+    omega
+
+theorem serialise_take_length_le (its : List Item) (j : Nat) : (serialise (its.take j)).length ≤ (serialise its).length := by
+  conv_rhs => rw [← List.take_append_drop j its, serialise_append]
+  simp
+
+/-! ### whatever the bytes and the cache are, a search only returns items parsed from a retained data file -/
+
+theorem scanEnd_subset (bs es : Nat) (res : Bytes) (l : List Item) : ∀ x ∈ (scanEnd bs es res l).1, x ∈ l := by
+  induction l with
+  | nil => simp [scanEnd]
+  | cons it r ih =>
+    intro x hx
+    unfold scanEnd at hx
+    by_cases h1 : it.ts / 1000 < bs ∨ it.ts / 1000 > es
+    · rw [if_pos h1] at hx; simp at hx
+    · rw [if_neg h1] at hx
+      by_cases hm : resMatch res it = true
+      · simp only [hm, if_true] at hx
+        rcases List.mem_cons.1 hx with rfl | hx
+        · simp
+        · exact List.mem_cons_of_mem _ (ih x hx)
+      · simp only [hm] at hx
+        exact List.mem_cons_of_mem _ (ih x hx)
+
+/-- `x` was parsed from a line of one of the data files of `fs` -/
+def FromFiles (fs : Dir) (x : Item) : Prop := ∃ f ∈ fs, ∃ off, x ∈ itemsFrom f.data off
+
+theorem readByEnd_fromFiles (fs : Dir) (off b e : Nat) (res : Bytes) :
+    ∀ x ∈ readByEnd fs off b e res, FromFiles fs x := by
+  cases fs with
+  | nil => simp [readByEnd]
+  | cons f r =>
+    intro x hx
+    rw [readByEnd_eq] at hx
+    have := scanEnd_subset _ _ _ _ x hx
+    rcases List.mem_append.1 this with h | h
+    · exact ⟨f, by simp, off, h⟩
+    · obtain ⟨g, hg, hxg⟩ := List.mem_flatMap.1 h
+      exact ⟨g, List.mem_cons_of_mem _ hg, 0, hxg⟩
+
+theorem searchLoop_fromFiles (doRead : Dir → Nat → List Item) (b o : Nat) (fs : Dir) (c : Cache)
+    (hread : ∀ d off, ∀ x ∈ doRead d off, FromFiles d x) :
+    ∀ x ∈ (searchLoop doRead b o fs c).2, FromFiles fs x := by
+  induction fs generalizing c with
+  | nil => simp [searchLoop]
+  | cons f r ih =>
+    intro x hx
+    unfold searchLoop at hx
+    rcases hres : findOffsetToStart f c b o with ⟨c', fd⟩
+    rw [hres] at hx
+    cases fd with
+    | «at» off => exact hread _ _ x hx
+    | notFound =>
+      obtain ⟨g, hg, hh⟩ := ih c' x hx
+      exact ⟨g, List.mem_cons_of_mem _ hg, hh⟩
+    | error =>
+      obtain ⟨g, hg, hh⟩ := ih c' x hx
+      exact ⟨g, List.mem_cons_of_mem _ hg, hh⟩
+
+theorem find_fromFiles (fs : Dir) (c : Cache) (b e : Nat) (res : Bytes) :
+    ∀ x ∈ (find fs c b e res).2, FromFiles fs x := by
+  intro x hx
+  unfold find search at hx
+  obtain ⟨g, hg, hh⟩ := searchLoop_fromFiles _ b _ _ c (fun d off => readByEnd_fromFiles d off b e res) x hx
+  exact ⟨g, List.mem_of_mem_drop hg, hh⟩
+
 end Sentinel.MetricLog
